@@ -96,7 +96,24 @@ pub fn exec_field_attrs(input: &Value) -> (Value, Value) {
     let kind = s(input, "kind");
     let ident = s(input, "ident");
     let delim = s(input, "delim");
-    let src = if kind == "variant" {
+    // helper attributes may precede the derive they belong to (rustc warns, serde honours them)
+    let first = input.get("attrs_first").and_then(|x| x.as_bool()).unwrap_or(false);
+    let src = if first && kind != "variant" {
+        format!(
+            "{}#[derive(Serialize, Deserialize)]\npub struct S {{\n{}    pub {}: {},\n}}\n",
+            attr_lines_delim(&input["container"], "", &delim),
+            attr_lines_delim(&input["attrs"], "    ", &delim),
+            ident,
+            input.get("ty").and_then(|x| x.as_str()).unwrap_or("i32")
+        )
+    } else if first {
+        format!(
+            "{}#[derive(Serialize, Deserialize)]\npub enum S {{\n{}    {},\n}}\n",
+            attr_lines_delim(&input["container"], "", &delim),
+            attr_lines_delim(&input["attrs"], "    ", &delim),
+            ident
+        )
+    } else if kind == "variant" {
         format!(
             "#[derive(Serialize, Deserialize)]\n{}pub enum S {{\n{}    {},\n}}\n",
             attr_lines_delim(&input["container"], "", &delim),
@@ -311,7 +328,7 @@ fn run_attrs(out: &mut Out, tier: &str) {
             // the key does not depend on the field's type: rotate through types of every kind (marker, unit, unsized, …)
             let ty = FIELD_TYPES[k % FIELD_TYPES.len()];
             let delim = ["paren", "brace", "paren", "bracket", "paren"][k % 5];
-            out.case("fieldAttrs", json!({"kind": kind, "ident": ident, "container": c, "attrs": attrs, "ty": ty, "delim": delim}), json!({"gen": "attrs"}));
+            out.case("fieldAttrs", json!({"kind": kind, "ident": ident, "container": c, "attrs": attrs, "ty": ty, "delim": delim, "attrs_first": k % 4 == 2}), json!({"gen": "attrs"}));
         }
     }
 }
